@@ -297,7 +297,14 @@ func (ix *Index) ReceiveBlob(ctx context.Context, blobRef blob.Ref, source io.Re
 
 	// TODO(bradfitz): this removeAllMissingEdges need not hold ix.Lock
 	// and could be done in the background.
-	ix.removeAllMissingEdges(blobRef)
+	//
+	// A blob that was only partially indexed because of an index miss
+	// (e.g. a delete claim whose target is not indexed yet) still waits
+	// for what it misses: its missing rows must survive, or a restart
+	// forgets that it has to be indexed again.
+	if strings.HasSuffix(mm.kv["have:"+blobRef.String()], "|indexed") {
+		ix.removeAllMissingEdges(blobRef)
+	}
 
 	// TODO(bradfitz): log levels? These are generally noisy
 	// (especially in tests, like search/handler_test), but I
